@@ -171,6 +171,46 @@ impl Oracle {
         Expect::Ok
     }
 
+    /// After `classify` returned `Expect::Ok`: do the needed operators form a
+    /// cycle when supplied / constant / captured values are *not* cut, i.e. is
+    /// there a dependency cycle that passes through an available value?
+    /// (Plannable, but the class of requests on which a planner that re-visits
+    /// operators could loop; used only to decide *how* to call the planner.)
+    pub fn cycle_through_available(&mut self) -> bool {
+        self.color.iter_mut().for_each(|x| *x = 0);
+        for start in 0..self.needed.len() {
+            if !self.needed[start] || self.color[start] != 0 {
+                continue;
+            }
+            self.dfs.clear();
+            self.dfs.push((start, 0));
+            self.color[start] = 1;
+            while let Some(&(op, i)) = self.dfs.last() {
+                if i < self.deps[op].len() {
+                    self.dfs.last_mut().unwrap().1 += 1;
+                    let d = self.deps[op][i];
+                    if let Some(p) = self.producer[d] {
+                        if !self.needed[p] {
+                            continue;
+                        }
+                        match self.color[p] {
+                            0 => {
+                                self.color[p] = 1;
+                                self.dfs.push((p, 0));
+                            }
+                            1 => return true,
+                            _ => {}
+                        }
+                    }
+                } else {
+                    self.color[op] = 2;
+                    self.dfs.pop();
+                }
+            }
+        }
+        false
+    }
+
     /// Validate a plan (operator indices; `None` = an id that is not an
     /// operator of the graph) for a request that `classify` accepted.
     pub fn validate(&mut self, req: &Request, plan: &[Option<usize>]) -> Result<(), PlanFault> {
